@@ -410,6 +410,10 @@ func (v *FV) modifiedIn(fr *Frame, blocks map[*ssa.BasicBlock]bool) map[string]b
 		out[a] = true
 		if !strings.HasSuffix(a, "$n") {
 			out[a+"$n"] = true
+		} else if !v.regions {
+			// without the region split (the default) every object lives in the one physical array:
+			// a write to an object allocated by this function is a write to that array
+			out[strings.TrimSuffix(a, "$n")] = true
 		}
 	}
 	return out
